@@ -61,6 +61,8 @@ def results():
 
 
 def witness_rule(chk, pid, floor):
+    if chk._overlay:
+        return  # witnesses are decided once, against the default features
     r = results()
     pre = pid.lower() + "_"
     mine = {k: v for k, v in r["tests"].items() if k.startswith(pre)}
